@@ -66,6 +66,17 @@ pub fn search(seed: u64, n: u64) {
             check_set(&mut stats, &mut rng, &vec![q], name, 300, 300);
         }
     }
+    // regression inputs of repair F19 (exterior_paths' point comparator was not transitive: sort_by panicked on these)
+    let f19: Vec<P> = vec![
+        (Coord2(45.009812415532025, 67.8012754312126), vec![(Coord2(39.14142705817911, 70.2285169900182), Coord2(33.274801864400686, 72.65503052196155), Coord2(27.40817667062226, 75.08154405390489)), (Coord2(29.841432785613097, 69.21565000729555), Coord2(32.27395906973561, 63.35151537701693), Coord2(34.70648535385812, 57.48738074673831)), (Coord2(37.13372691266373, 63.355766104091224), Coord2(39.56024044460707, 69.22239129786965), Coord2(41.98675397655041, 75.08901649164807)), (Coord2(36.12085992994107, 72.65576037665724), Coord2(30.256725299662445, 70.22323409253472), Coord2(24.39259066938382, 67.79070780841222)), (Coord2(30.260976026736735, 65.3634662496066), Coord2(36.12760122051516, 62.93695271766327), Coord2(41.99422641429358, 60.510439185719925)), (Coord2(39.560970299302745, 66.37633323232927), Coord2(37.128444015180236, 72.24046786260789), Coord2(34.695917731057726, 78.10460249288651)), (Coord2(32.268676172252114, 72.2362171355336), Coord2(29.842162640308775, 66.36959194175517), Coord2(27.415649108365436, 60.50296674797675)), (Coord2(33.28154315497478, 62.93622286296758), Coord2(39.1456777852534, 65.3687491470901), Coord2(45.009812415532025, 67.8012754312126))]),
+        (Coord2(62.55269336885537, 76.08691429555698), vec![(Coord2(59.77770192507332, 68.31422607800006), Coord2(57.00271048129128, 60.54153786044314), Coord2(54.22688645681803, 52.76651760321699)), (Coord2(54.1761095010895, 61.01955833625464), Coord2(54.12533254536097, 69.2725990692923), Coord2(54.07454035502226, 77.52811596216584)), (Coord2(56.94496126001245, 69.79016122796075), Coord2(59.815382165002646, 62.05220649375565), Coord2(62.68666428238557, 54.311930140968435)), (Coord2(57.342814552176314, 60.601487335346604), Coord2(51.998964821967064, 66.89104452972478), Coord2(46.653511776507216, 73.18248877996685)), (Coord2(53.82624318764984, 69.09994254703577), Coord2(60.99897459879246, 65.01739631410469), Coord2(68.17385804456188, 60.933625194815086)), (Coord2(60.03738221891111, 62.316745138642204), Coord2(51.90090639326034, 63.69986508246932), Coord2(43.76198938074319, 65.08340000377734)), (Coord2(51.88083055473449, 66.5665310269561), Coord2(59.999671728725794, 68.04966205013484), Coord2(68.12094879865889, 69.53323805711894)), (Coord2(60.9989943432448, 65.36274355701237), Coord2(53.87703988783072, 61.192249056905794), Coord2(46.752948632400006, 57.02050328332184)), (Coord2(52.01900355306058, 63.37533807369981), Coord2(57.28505847372115, 69.73017286407779), Coord2(62.55269336885537, 76.08691429555698))]),
+    ];
+    let mut rng_f19 = Rng(0xF19);   // its own stream: the inputs generated below stay what they were before these cases existed
+    for q in &f19 {
+        stats.case(&format!("corpus f19 {:?}", q), true);
+        stats.count("corpus.f19_regression");
+        check_set(&mut stats, &mut rng_f19, &vec![q.clone()], "f19_regression", 200, 200);
+    }
     for (k, m) in STARS {
         for rot in [0.0, 0.1, TAU / 4.0] {
             for variant in 0..2 {
